@@ -469,17 +469,22 @@ def r4_funnel(R) -> None:
 def r5_export(R) -> None:
     q = f'{A}.to_dataframe'
     f = Fn(R, q)
-    base = f.assigns_to('df')
+    # the frame, by role: the local that receives the base export, whatever it is called
+    DF = 'df'
+    for n_ in f.cfg.nodes:
+        if n_.kind == 'stmt' and isinstance(n_.ast, ast.Assign) and len(n_.ast.targets) == 1 and isinstance(n_.ast.targets[0], ast.Name) and is_super_call(n_.ast.value, 'to_dataframe'):
+            DF = n_.ast.targets[0].id
+    base = f.assigns_to(DF)
     ok = len(base) == 1 and is_super_call(base[0].ast.value, 'to_dataframe')
-    R.check(ok, q, 'base-frame', 'the frame comes from the base export', '`df` is not super().to_dataframe(...)', where=f.fi.where)
+    R.check(ok, q, 'base-frame', 'the frame comes from the base export', f'`{DF}` is not super().to_dataframe(...)', where=f.fi.where)
     for r in f.returns():
         v = r.ast.value
-        ok = text(v) == 'df' or (method_call(v, 'rename') and text(v.func.value) == 'df' and [k.arg for k in v.keywords] == ['columns'] and not v.args)
+        ok = text(v) == DF or (method_call(v, 'rename') and text(v.func.value) == DF and [k.arg for k in v.keywords] == ['columns'] and not v.args)
         R.check(ok, q, 'only-renames:' + text(v)[:50], 'every return is the base frame or a column rename of it',
                 f'`return {text(v)[:60]}` changes, drops or duplicates data columns', where=f.where(r))
-    others = [x for x in ast.walk(f.fi.node) if isinstance(x, ast.Call) and isinstance(x.func, ast.Attribute) and text(x.func.value) == 'df' and x.func.attr != 'rename']
+    others = [x for x in ast.walk(f.fi.node) if isinstance(x, ast.Call) and isinstance(x.func, ast.Attribute) and text(x.func.value) == DF and x.func.attr != 'rename']
     R.check(not others, q, 'no-other-frame-ops', 'no other operation on the frame', f'`{text(others[0])[:50] if others else ""}` operates on the frame', where=f.fi.where)
-    st = [x for x in ast.walk(f.fi.node) if isinstance(x, (ast.Assign, ast.AugAssign)) and any(isinstance(t, ast.Subscript) and text(t.value) == 'df' for t in (x.targets if isinstance(x, ast.Assign) else [x.target]))]
+    st = [x for x in ast.walk(f.fi.node) if isinstance(x, (ast.Assign, ast.AugAssign)) and any(isinstance(t, ast.Subscript) and text(t.value) == DF for t in (x.targets if isinstance(x, ast.Assign) else [x.target]))]
     R.check(not st, q, 'no-column-writes', 'no column is assigned', 'a column of the frame is assigned', where=f.fi.where)
     rs = f.raises('ValueError')
     R.check(len(rs) == 1, q, 'ambiguous-export', 'several preferred names for one variable are rejected', 'no ValueError for ambiguous preferences', where=f.fi.where)
